@@ -13,36 +13,55 @@ META = {
                   'buffer depend only on the concatenation), one_reply_per_line, serve_total (whatever the dispatcher returns or '
                   'raises), reply_action_fits (table generated from REQUEST2REPLY, table facts by decide), error_class_is_secop, '
                   'independent_lines, lines_whole (no frame contains a newline of its own; any number of senders doing acquire / partial writes / release '
-                  'in any interleaving leave a concatenation of whole frames), codec_inverse over an abstract JSON layer.  The models are tied to '
-                  'frappy/protocol/interface/{__init__,handler,tcp}.py by a correspondence run on the real TCPRequestHandler over a '
-                  'scripted socket (stub dispatcher doing anything + the real Dispatcher over a small real node; two connections and an updater '
-                  'thread on one real dispatcher under a deterministic scheduler with partial writes), and the Lean monitors judge the bytes '
-                  'actually sent: whole lines, one fitting reply per request line, no events of modules the connection did not subscribe to.',
+                  'in any interleaving leave a concatenation of whole frames), codec_inverse over an abstract JSON layer; '
+                  'neutral_lines_removable / other_connections_unaffected ("no input changes the answers given to other lines": leaving out any request '
+                  'lines other than read/change/do -- describe, ping, activate, blank lines, unknown actions, undecodable bytes -- on this or on an earlier '
+                  'connection of the same dispatcher leaves every other reply as it is, for a dispatcher satisfying DispNeutral); a model of '
+                  'Dispatcher.handle_request and the handle_* methods over an abstract node (Wire/Dispatch) for which DispNeutral, the FitsOk half of DispFits '
+                  'and finiteness of the data handed on are proved (dispatcher_answers_independent, dispatcher_reply_fits, dispatcher_emitted_strict); '
+                  'peer_gone_prefix / peer_gone_sound (a socket whose sendall fails from call n on, any n: the peer has exactly the first n frames of the run '
+                  'without failure, the line being processed is finished, no later line reaches the dispatcher).  The models are tied to '
+                  'frappy/protocol/interface/{__init__,handler,tcp}.py and frappy/protocol/dispatcher.py by a correspondence run on the real TCPRequestHandler over a '
+                  'scripted socket (stub dispatcher doing anything + the real Dispatcher over a small real node, also with sockets that fail; the dispatcher model '
+                  'against the real Dispatcher per call, its request-only functions taken from fresh nodes; sessions of several connections one after the other on one '
+                  'node; two connections and an updater thread on one real dispatcher under a deterministic scheduler with partial writes), and the Lean monitors judge the bytes '
+                  'actually sent: whole lines, one fitting reply per request line, no events of modules the connection did not subscribe to, and -- on pairs of runs, '
+                  'the second without some neutral lines -- unchanged answers to all other lines.',
     'level_note': 'Trusted: Lean kernel + axioms propext/Classical.choice/Quot.sound; Python json and the UTF-8 codec enter the '
                   'model as parameters with the laws of Spec.C07.LibLaws; strictness of emitted JSON (judged on runs with the real Dispatcher; '
                   'what a stub dispatcher hands over is harness input) and validity of emitted UTF-8 are tested on the implementation side only; '
-                  'ThreadingTCPServer and the socket are not modelled (sendall = a sequence of partial writes that succeed; send_lock = a lock '
-                  'acquired only when free).',
+                  'ThreadingTCPServer and the socket are not modelled (sendall = a sequence of partial writes that succeed, or a call that fails as a whole; '
+                  'send_lock = a lock acquired only when free).  The answers compared by the independence monitor are canonicalised by the harness: time stamps '
+                  'masked, error reports reduced to the class name.',
     'trusted': [
         'LibLaws: json.loads(json.dumps(x)) == x; json.dumps output is non-empty ASCII without newline that begins and ends with a '
         'printable non-blank character; UTF-8 validity of a text joined by blanks is validity of the parts',
         'splitting a decoded text at U+0020 is splitting its UTF-8 bytes at 0x20',
         'driver glue: utf8ok / json.loads of the model are answered by the real Python functions on the arguments the model passes '
-        '(oracle tables)',
+        '(oracle tables); for the dispatcher model: descriptive data and the checks of activate / logging are tables computed on fresh nodes, '
+        'what a module did with read/change/do is what the real module did in that call, Python truth values of request data come from Python',
         'the dispatcher raises only subclasses of Exception (KeyboardInterrupt/SystemExit are not answered)',
-        'sends succeed (the peer reads); a failing sendall ends the connection by design',
+        'what a failing sendall wrote before it raised is not modelled (the peer is gone)',
     ],
     'modelled_not_verified': [
         'socketserver.ThreadingTCPServer / socket.recv / sendall (scripted fake socket)',
         'threading.Lock (send_lock): modelled as SendStep.acquire enabled only when nobody holds it; sendall as partial writes by the holder',
         'formatException / formatExtendedStack texts inside error reports (not observed; formatExtendedStack is replaced by a stub during the run because it repr()s every local of the harness frames)',
+        'SecNode / modules / datatypes behind the dispatcher: parameters of the dispatcher model (NodeIf); subscriptions and remote log levels only as '
+        'abstract bookkeeping that never influences a reply; the events a request causes are not compared with the dispatcher model (abstract function)',
     ],
     'assumptions': [
         'DispFits (hypothesis of reply_action_fits / lines_whole): positive replies of the dispatcher are well-formed triples that belong '
-        'to the request; checked on the real Dispatcher by the monitors',
-        'observation = per emitted line (action, specifier, error class, has data); message texts and time stamps are not compared',
+        'to the request; its FitsOk half is proved for the dispatcher model, well-formedness of specifiers is checked on the real Dispatcher by the monitors',
+        'DispNeutral (hypothesis of neutral_lines_removable): proved for the dispatcher model over any NodeIf, i.e. assuming that descriptive data and the '
+        'checks of activate / logging are functions of the request alone and that no reply depends on subscriptions; checked on the real node by the '
+        'correspondence run (fresh-node tables) and by the independence monitor',
+        'NodeFinite (hypothesis of dispatcher_emitted_strict): the node hands only finite numbers to the dispatcher',
+        'observation = per emitted line (action, specifier, error class, has data); for the independence monitor and the dispatcher model also the '
+        'data (JSON text, time stamps masked); message texts and time stamps are not compared',
     ],
 }
+
 
 HERE = os.path.dirname(os.path.abspath(__file__))
 
@@ -1211,8 +1230,11 @@ def run(ctx):
                 '27 things (fitting reply, reply after events, 6 SECoP errors, 6 other exceptions, 9 kinds of unusable return value) '
                 'or the real Dispatcher over a two-module node; plus concurrent cases (connection A with such a stream, connection B with a fixed '
                 'script, a third thread announcing updates, all on one real dispatcher under the deterministic scheduler with partial '
-                'writes); non-trivial = at least 2 request lines in at least 2 chunks with at '
-                'least one positive and one error reply')
+                'writes; when nothing A sends is carried out by a module, B is compared with B alone on a fresh node); 10 % of the streams with a '
+                'socket whose sendall fails from call n on (5 kinds of exception); sessions (1-3 connections one after the other on one node, 55 % of the '
+                'lines requests that no module carries out with any specifier) run twice, the second time on a fresh node without some of the '
+                'neutral lines (one / all / all of one connection / random half); non-trivial = at least 2 request lines in at least 2 chunks with at '
+                'least one positive and one error reply; for sessions: at least 2 connections, lines left out and lines kept')
     rng = ctx.rng
     big = ctx.tier == 'thorough' or ctx.escalated
     cases = []
